@@ -153,6 +153,18 @@ CLAIMED = {
              'dbus reader is a regex reader (the reference parser reads the same text in C12).',
         technique='Lean 4 definitions of the documented expansions + theorems, compared with the real directives on generated arguments; real builds scanned',
         ref='8/C07'),
+    'C08': dict(
+        text='Closure of references is a decidable Lean predicate (C08.Closed / C08.missing) evaluated on the definitions and '
+             'references scanned from every real build of the tier (every distribution x normal/full; thorough: x ABI): exec '
+             'transition targets, change_profile targets, stacked names, AppArmorProfile= of the built drop-ins, and the names used by '
+             'exec/stack directives, flags manifests and the overwrite list against the source profiles. Lean theorems: missing = [] '
+             'iff closed; closure is preserved by every step that keeps definitions and adds no reference; removing the defining file '
+             'of a referenced name breaks it (why per-distribution ignore lists matter); stacking preserves it. Each dangling pair '
+             'of the unchanged tree is a known finding keyed by (file, target), so a new one is a violation.',
+        note='Trusted: Lean kernel; the scanners of definitions and references are python line scanners (not cross-checked against '
+             'apparmor_parser -d in this round); variable targets are resolved through the built tunables; pattern targets are accepted.',
+        technique='Lean 4 decidable closure predicate + theorems, evaluated on scanned real builds of every distribution',
+        ref='8/C08'),
 }
 
 REASON_TODO = 'check not built yet in this round; no claim is made (see DESIGN.md section 13)'
